@@ -516,6 +516,59 @@ class SPattern:
                 return SMatch(self, s, items, self._is_bytes, p, r[1], r[0].groups)
         return None
 
+    def finditer(self, s, pos=0):
+        items, sym = self._subject(s)
+        if not sym:
+            return self._real.finditer(s, pos)
+        out = []
+        n = _real_len(items)
+        while pos <= n:
+            m = None
+            for p in range(pos, n + 1):
+                r = self._match_at(items, p)
+                if r is not None:
+                    m = SMatch(self, s, items, self._is_bytes, p, r[1], r[0].groups)
+                    break
+            if m is None:
+                break
+            out.append(m)
+            a, b = m.span()
+            pos = b + 1 if b == a else b
+        return iter(out)
+
+    def findall(self, s, pos=0):
+        items, sym = self._subject(s)
+        if not sym:
+            return self._real.findall(s, pos)
+        empty = b"" if self._is_bytes else ""
+        out = []
+        for m in self.finditer(s, pos):
+            if self.groups == 0:
+                out.append(m.group(0))
+            elif self.groups == 1:
+                g = m.group(1)
+                out.append(empty if g is None else g)
+            else:
+                out.append(tuple(empty if g is None else g for g in m.groups()))
+        return out
+
+    def split(self, s, maxsplit=0):
+        items, sym = self._subject(s)
+        if not sym:
+            return self._real.split(s, maxsplit)
+        mk = V.mk_bytes if self._is_bytes else T.mk_str
+        out, last, done = [], 0, 0
+        for m in self.finditer(s):
+            if maxsplit and done >= maxsplit:
+                break
+            a, b = m.span()
+            out.append(mk(items[last:a]))
+            out.extend(m.groups())
+            last = b
+            done += 1
+        out.append(mk(items[last:]))
+        return out
+
     def sub(self, repl, s, count=0):
         items, sym = self._subject(s)
         if not sym:
@@ -593,6 +646,22 @@ def search(pattern, string, flags=0):
 
 def sub(pattern, repl, string, count=0, flags=0):
     return compile(pattern, flags).sub(repl, string, count)
+
+
+def finditer(pattern, string, flags=0):
+    return compile(pattern, flags).finditer(string)
+
+
+def findall(pattern, string, flags=0):
+    return compile(pattern, flags).findall(string)
+
+
+def split(pattern, string, maxsplit=0, flags=0):
+    return compile(pattern, flags).split(string, maxsplit)
+
+
+def subn(pattern, repl, string, count=0, flags=0):
+    raise Unsupported("re.subn on symbolic input")
 
 
 def escape(s):
